@@ -180,6 +180,7 @@ def _run_task(spec):
       d['harness_error'] = text
   d['subspace'] = subspace
   d['wall'] = time.time() - t0
+  d['spec'] = '%s(%s)' % (fn, json.dumps(_j(args))[:150])
   d['outcomes'] = dict(d['outcomes'])
   return d
 
@@ -207,17 +208,32 @@ def run_property(modname, tier, seed, only=None):
   if only:
     tasks = [t for t in tasks if only in t.subspace or only == t.fn]
   tasks_sorted = sorted(tasks, key=lambda t: -t.weight)
-  specs = [(modname, t.fn, t.args, t.subspace) for t in tasks_sorted]
   results = []
-  nproc = min(NPROC, max(1, len(specs)))
-  if nproc == 1 or os.environ.get('VERIF_SERIAL'):
-    for s in specs:
+  heavy = [(modname, t.fn, t.args, t.subspace) for t in tasks_sorted if t.mem_heavy]
+  specs = [(modname, t.fn, t.args, t.subspace) for t in tasks_sorted if not t.mem_heavy]
+  ctx = multiprocessing.get_context('fork')
+  if os.environ.get('VERIF_SERIAL'):
+    for s in heavy + specs:
       results.append(_run_task(s))
   else:
-    ctx = multiprocessing.get_context('fork')
-    with ctx.Pool(nproc, initializer=_init_worker) as pool:
-      for d in pool.imap_unordered(_run_task, specs, chunksize=1):
-        results.append(d)
+    # memory-heavy tasks (2^24-entry point tables, ~3.5 GB each) run in their own small
+    # pool, concurrently with the ordinary tasks
+    hw = min(int(os.environ.get('VERIF_HEAVY_NPROC', '4')), len(heavy))
+    nw = max(1, min(NPROC - hw, len(specs)))
+    hpool = ctx.Pool(hw, initializer=_init_worker, maxtasksperchild=1) if heavy else None
+    npool = ctx.Pool(nw, initializer=_init_worker) if specs else None
+    try:
+      hres = [hpool.apply_async(_run_task, (s,)) for s in heavy] if hpool else []
+      if npool:
+        for d in npool.imap_unordered(_run_task, specs, chunksize=1):
+          results.append(d)
+      for h in hres:
+        results.append(h.get())
+    finally:
+      for p_ in (hpool, npool):
+        if p_:
+          p_.terminate()
+          p_.join()
   return finish(mod, tier, seed, tasks, results, t0, bool(only))
 
 
@@ -378,6 +394,8 @@ def finish(mod, tier, seed, tasks, results, t0, only_partial=False):
          len(sub), len(matched), len(new_violations), wall))
   if mod.LEVEL == 'model_checking':
     print('  states=%d transitions=%d' % (tot.states, tot.transitions))
+  slow = sorted(results, key=lambda d: -d['wall'])[:3]
+  print('  slowest tasks: ' + '; '.join('%.0fs %s' % (d['wall'], d.get('spec', '?')) for d in slow))
   for s in sub.values():
     print('  [%s] cases=%d nontrivial=%d complete=%s %.1fs %s' %
           (s['name'], s['cases'], s['nontrivial'], s['complete'], s['wall_s'],
